@@ -6,6 +6,9 @@ pub fn run(prop: &str, tier: &str) -> Option<Report> {
     Some(match prop {
         "C07" => crate::c07::c07(tier),
         "C06" => crate::c06::c06(tier),
+        "C02" => crate::e2_checks::c02(tier),
+        "C03" => crate::e2_checks::c03(tier),
+        "C04" => crate::e2_checks::c04(tier),
         "C01" => crate::c01::c01(tier),
         "C14" => crate::c14::c14(tier),
         "C20" => crate::c20::c20(tier),
